@@ -189,3 +189,848 @@ Proof.
     + cbn in He. specialize (IH (S k) Hr i e He).
       eapply Forall_impl; [|exact IH]. cbn. intros; lia.
 Qed.
+
+(* ------------------------------------------------------------------ offered = exactly the spec's set *)
+Lemma indexed_In_from (m : list entry) : forall k i e,
+  In (i, e) (combine (seq k (length m)) m) <-> (k <= i)%nat /\ nth_error m (i - k) = Some e.
+Proof.
+  induction m as [|a m IH]; intros k i e; cbn [length seq combine].
+  - split; [intros []|]. intros [_ H]. destruct (i - k)%nat; discriminate.
+  - cbn [In]. rewrite IH. split.
+    + intros [H|[Hk H]].
+      * inversion H; subst. rewrite Nat.sub_diag. split; [lia|reflexivity].
+      * split; [lia|]. replace (i - k)%nat with (S (i - S k)) by lia. exact H.
+    + intros [Hk H]. destruct (i - k)%nat as [|j] eqn:Hj.
+      * left. cbn in H. inversion H. f_equal. lia.
+      * right. split; [lia|]. cbn in H. replace (i - S k)%nat with j by lia. exact H.
+Qed.
+
+Lemma indexed_In m i e : In (i, e) (indexed m) <-> nth_error m i = Some e.
+Proof.
+  unfold indexed. rewrite indexed_In_from. rewrite Nat.sub_0_r. split; [tauto|]. intros; split; [lia|assumption].
+Qed.
+
+Lemma eff_ignored_false applied e :
+  eff_ignored applied e = false <-> e_ignored e = false /\ ~ In (e_bit e) applied.
+Proof. unfold eff_ignored. rewrite orb_false_iff, zmem_false. tauto. Qed.
+
+Lemma offered_idx_In t d i e :
+  In (i, e) (offered_idx t d) <->
+  nth_error (t_entries t) i = Some e /\ eff_ignored (t_applied t) e = false /\
+  nth i (hits d (t_entries t)) false = true.
+Proof.
+  unfold offered_idx. rewrite filter_In, indexed_In. cbn [fst snd].
+  rewrite andb_true_iff, negb_true_iff. tauto.
+Qed.
+
+Lemma table_offered_exact t d cs : mapping_wf (t_entries t) -> table_offered t d = Some cs ->
+  forall c, In c cs <->
+    exists i e, nth_error (t_entries t) i = Some e /\ c = mk_cand t d (i, e) /\
+                e_ignored e = false /\ ~ In (e_bit e) (t_applied t) /\
+                spec_intersects (t_entries t) d i.
+Proof.
+  intros Hwf H c. unfold table_offered in H.
+  destruct (entries_decodable 0 (t_entries t)); [|discriminate]. inversion H; subst cs. clear H.
+  rewrite in_map_iff. split.
+  - intros [[i e] [Hc Hin]]. apply offered_idx_In in Hin. destruct Hin as [He [Hig Hh]].
+    exists i, e. apply eff_ignored_false in Hig.
+    assert (Hi : (i < length (t_entries t))%nat) by (apply nth_error_Some; congruence).
+    apply (hits_spec _ d Hwf i Hi) in Hh. intuition.
+  - intros [i [e [He [Hc [Hig [Hap Hs]]]]]]. exists (i, e). split; [symmetry; exact Hc|].
+    apply offered_idx_In. split; [exact He|]. split; [apply eff_ignored_false; auto|].
+    assert (Hi : (i < length (t_entries t))%nat) by (apply nth_error_Some; congruence).
+    apply (hits_spec _ d Hwf i Hi). exact Hs.
+Qed.
+
+Lemma offered_In f : forall d cs, offered f d = Some cs ->
+  forall c, In c cs <-> exists t ct, In t f /\ table_offered t d = Some ct /\ In c ct.
+Proof.
+  induction f as [|t f IH]; intros d cs H c; cbn [offered] in H.
+  - inversion H; subst. split; [intros []|]. intros [t [ct [[] _]]].
+  - destruct (table_offered t d) as [a|] eqn:Ha; [|discriminate].
+    destruct (offered f d) as [b|] eqn:Hb; [|discriminate]. inversion H; subst cs. clear H.
+    rewrite in_app_iff, (IH d b Hb c). split.
+    + intros [Hc|[t' [ct [Hin [Ht Hc]]]]].
+      * exists t, a. split; [left; reflexivity|]. auto.
+      * exists t', ct. split; [right; exact Hin|]. auto.
+    + intros [t' [ct [[Heq|Hin] [Ht Hc]]]].
+      * subst t'. rewrite Ha in Ht. inversion Ht; subst. left. exact Hc.
+      * right. exists t', ct. auto.
+Qed.
+
+Definition font_wf (f : list table) : Prop := forall t, In t f -> mapping_wf (t_entries t).
+
+Lemma offered_exact f d cs : font_wf f -> offered f d = Some cs ->
+  forall c, In c cs <->
+    exists t i e, In t f /\ nth_error (t_entries t) i = Some e /\ c = mk_cand t d (i, e) /\
+                  e_ignored e = false /\ ~ In (e_bit e) (t_applied t) /\
+                  spec_intersects (t_entries t) d i.
+Proof.
+  intros Hwf H c. rewrite (offered_In f d cs H c). split.
+  - intros [t [ct [Hin [Ht Hc]]]]. apply (table_offered_exact t d ct (Hwf t Hin) Ht) in Hc.
+    destruct Hc as [i [e Hc]]. exists t, i, e. tauto.
+  - intros [t [i [e [Hin Hc]]]].
+    pose proof (table_offered_exact t d) as Hx. unfold table_offered in Hx.
+    destruct (entries_decodable 0 (t_entries t)) eqn:Hd.
+    + exists t, (map (mk_cand t d) (offered_idx t d)). split; [exact Hin|]. split; [unfold table_offered; rewrite Hd; reflexivity|].
+      apply (Hx _ (Hwf t Hin) eq_refl). exists i, e. exact Hc.
+    + exfalso. clear Hx Hc. revert H Hin Hd. clear. revert cs.
+      induction f as [|t0 f IH]; intros cs H Hin Hd; [destruct Hin|].
+      cbn [offered] in H. unfold table_offered in H at 1.
+      destruct Hin as [Heq|Hin].
+      * subst t0. rewrite Hd in H. discriminate.
+      * destruct (entries_decodable 0 (t_entries t0)); [|discriminate].
+        destruct (offered f d) as [b|] eqn:Hb; [|discriminate]. apply (IH b eq_refl Hin Hd).
+Qed.
+
+(* ------------------------------------------------------------------ monotonicity *)
+Lemma cp_intersects_mono e a b : (forall x, cp_in a x -> cp_in b x) ->
+  cp_intersects e a = true -> cp_intersects e b = true.
+Proof.
+  intros Hs. rewrite !cp_intersects_spec. intros [H|[x [Hx H]]]; [left; exact H|].
+  right. exists x. auto.
+Qed.
+
+Lemma feat_intersects_mono e a b :
+  match a, b with _, FAll => True | FAll, FSet _ => False | FSet x, FSet y => incl x y end ->
+  feat_intersects e a = true -> feat_intersects e b = true.
+Proof.
+  intros Hs. rewrite !feat_intersects_spec. intros [H|[t [Ht H]]]; [left; exact H|].
+  right. exists t. split; [exact Ht|].
+  destruct a, b; cbn [feat_in] in *; auto. contradiction.
+Qed.
+
+Lemma ds_intersects_mono e a b :
+  match a, b with _, DAll => True | DAll, DRanges _ => False
+                | DRanges x, DRanges y => forall t v, dsmap_in x t v -> dsmap_in y t v end ->
+  ds_intersects e a = true -> ds_intersects e b = true.
+Proof.
+  intros Hs H. destruct b as [|y]; [reflexivity|]. destruct a as [|x]; [contradiction|].
+  cbn [ds_intersects] in *. destruct e as [|p r]; [reflexivity|].
+  rewrite existsb_exists in *. destruct H as [ta [Hta H]]. exists ta. split; [exact Hta|].
+  rewrite existsb_exists in *. destruct H as [tb [Htb H]].
+  apply andb_true_iff in H. destruct H as [Heq Hov]. apply Z.eqb_eq in Heq.
+  apply ranges_overlap_spec in Hov. destruct Hov as [v [Hva Hvb]].
+  assert (Hx : dsmap_in x (fst tb) v).
+  { exists (snd tb). rewrite <- surjective_pairing. auto. }
+  apply Hs in Hx. destruct Hx as [rs [Hrs Hv]].
+  exists (fst tb, rs). split; [exact Hrs|]. cbn [fst snd]. rewrite Heq, Z.eqb_refl. cbn.
+  apply ranges_overlap_spec. exists v. auto.
+Qed.
+
+Lemma entry_intersects_mono e a b : sdef_subset a b ->
+  entry_intersects e a = true -> entry_intersects e b = true.
+Proof.
+  intros [Hc [Hf Hd]]. unfold entry_intersects. rewrite !andb_true_iff. intros [[H1 H2] H3].
+  split; [split|].
+  - eapply cp_intersects_mono; eauto.
+  - eapply feat_intersects_mono; eauto.
+  - eapply ds_intersects_mono; eauto.
+Qed.
+
+Lemma entry_hit_mono a b acc acc' e : sdef_subset a b ->
+  (forall c, nth c acc false = true -> nth c acc' false = true) ->
+  entry_hit a acc e = true -> entry_hit b acc' e = true.
+Proof.
+  intros Hs Hacc. unfold entry_hit.
+  destruct (entry_intersects (e_def e) a) eqn:Ha; cbn [negb]; [|discriminate].
+  rewrite (entry_intersects_mono _ _ _ Hs Ha). cbn [negb].
+  destruct (e_children e) as [|c0 cs]; [auto|]. destruct (e_conj e).
+  - rewrite !forallb_forall. intros H c Hc. apply Hacc. apply H. exact Hc.
+  - rewrite !existsb_exists. intros [c [Hc H]]. exists c. split; [exact Hc|]. apply Hacc. exact H.
+Qed.
+
+Lemma hits_mono a b m : sdef_subset a b ->
+  forall i, nth i (hits a m) false = true -> nth i (hits b m) false = true.
+Proof.
+  intros Hs. induction m as [|e m IH] using rev_ind; intros i.
+  - cbn. destruct i; discriminate.
+  - rewrite !hits_app.
+    destruct (Nat.lt_ge_cases i (length m)) as [Hi|Hi].
+    + rewrite !app_nth1 by (rewrite hits_length; exact Hi). apply IH.
+    + rewrite !app_nth2 by (rewrite hits_length; exact Hi). rewrite !hits_length.
+      destruct (i - length m)%nat as [|j]; cbn [nth].
+      * apply entry_hit_mono; assumption.
+      * destruct j; discriminate.
+Qed.
+
+Lemma cand_entry_mk t a b ie : cand_entry (mk_cand t a ie) = cand_entry (mk_cand t b ie).
+Proof. reflexivity. Qed.
+
+Lemma table_offered_mono t a b ca : sdef_subset a b -> table_offered t a = Some ca ->
+  exists cb, table_offered t b = Some cb /\ incl (map cand_entry ca) (map cand_entry cb).
+Proof.
+  intros Hs H. unfold table_offered in *. destruct (entries_decodable 0 (t_entries t)); [|discriminate].
+  inversion H; subst ca. eexists. split; [reflexivity|].
+  intros x Hx. rewrite map_map in *. rewrite in_map_iff in *. destruct Hx as [[i e] [Hx Hin]].
+  exists (i, e). split; [rewrite <- Hx; reflexivity|].
+  rewrite offered_idx_In in *. destruct Hin as [He [Hig Hh]]. split; [exact He|]. split; [exact Hig|].
+  eapply hits_mono; eauto.
+Qed.
+
+Lemma offered_mono f a b : sdef_subset a b -> forall ca, offered f a = Some ca ->
+  exists cb, offered f b = Some cb /\ incl (map cand_entry ca) (map cand_entry cb).
+Proof.
+  intros Hs. induction f as [|t f IH]; intros ca H; cbn [offered] in *.
+  - inversion H; subst. exists []. split; [reflexivity|]. intros x [].
+  - destruct (table_offered t a) as [x|] eqn:Hx; [|discriminate].
+    destruct (offered f a) as [y|] eqn:Hy; [|discriminate]. inversion H; subst ca. clear H.
+    destruct (table_offered_mono t a b x Hs Hx) as [x' [Hx' Hi1]].
+    destruct (IH y eq_refl) as [y' [Hy' Hi2]]. rewrite Hx', Hy'.
+    exists (x' ++ y'). split; [reflexivity|]. rewrite !map_app.
+    apply incl_app; [apply incl_appl | apply incl_appr]; assumption.
+Qed.
+
+Lemma sdef_subset_all d : sdef_subset d sdef_all.
+Proof.
+  unfold sdef_subset, sdef_all. cbn. split; [intros x _ []|].
+  split; [destruct (sd_feat d); exact I | destruct (sd_ds d); exact I].
+Qed.
+
+Lemma offered_subset_all_lemma f d cs : offered f d = Some cs ->
+  exists call, offered f sdef_all = Some call /\ incl (map cand_entry cs) (map cand_entry call).
+Proof. apply offered_mono. apply sdef_subset_all. Qed.
+
+(* ------------------------------------------------------------------ IntersectionInfo ordering *)
+Lemma lcmp_refl a : lcmp a a = Eq.
+Proof. induction a as [|x a IH]; cbn; [reflexivity|]. rewrite Z.compare_refl. exact IH. Qed.
+
+Lemma lcmp_eq a : forall b, lcmp a b = Eq -> a = b.
+Proof.
+  induction a as [|x a IH]; intros [|y b]; cbn; try discriminate; [reflexivity|].
+  destruct (x ?= y) eqn:E; try discriminate. intros H. apply Z.compare_eq in E. subst.
+  f_equal. apply IH. exact H.
+Qed.
+
+Lemma lcmp_antisym a : forall b, lcmp a b = CompOpp (lcmp b a).
+Proof.
+  induction a as [|x a IH]; intros [|y b]; cbn; try reflexivity.
+  rewrite (Z.compare_antisym x y). destruct (x ?= y); cbn; auto.
+Qed.
+
+Lemma lcmp_lt_trans a : forall b c, lcmp a b = Lt -> lcmp b c = Lt -> lcmp a c = Lt.
+Proof.
+  induction a as [|x a IH]; intros [|y b] [|z c]; cbn; try discriminate; auto.
+  intros H1 H2.
+  destruct (x ?= y) eqn:E1; try discriminate; destruct (y ?= z) eqn:E2; try discriminate.
+  - apply Z.compare_eq in E1, E2. subst. rewrite Z.compare_refl. eapply IH; eauto.
+  - apply Z.compare_eq in E1. subst. rewrite E2. reflexivity.
+  - apply Z.compare_eq in E2. subst. rewrite E1. reflexivity.
+  - rewrite Z.compare_lt_iff in E1, E2. assert (Hxz : x < z) by lia.
+    apply Z.compare_lt_iff in Hxz. rewrite Hxz. reflexivity.
+Qed.
+
+Definition ikey (a : info) : list Z := i_cp a :: i_tags a :: flat_ds (i_ds a).
+
+Lemma info3_cmp_key a b : info3_cmp a b = lcmp (ikey a) (ikey b).
+Proof.
+  unfold info3_cmp, ikey. cbn [lcmp].
+  destruct (i_cp a ?= i_cp b); try reflexivity. destruct (i_tags a ?= i_tags b); reflexivity.
+Qed.
+
+Lemma info_cmp_key a b :
+  info_cmp a b = match lcmp (ikey a) (ikey b) with Eq => (i_order b ?= i_order a) | c => c end.
+Proof.
+  rewrite <- info3_cmp_key. unfold info_cmp, info3_cmp.
+  rewrite (Z.compare_antisym (i_order a) (i_order b)).
+  destruct (lcmp [i_cp a; i_tags a] [i_cp b; i_tags b]); reflexivity.
+Qed.
+
+Lemma info_cmp_antisym a b : info_cmp a b = CompOpp (info_cmp b a).
+Proof.
+  rewrite !info_cmp_key, (lcmp_antisym (ikey a) (ikey b)), (Z.compare_antisym (i_order a) (i_order b)).
+  destruct (lcmp (ikey b) (ikey a)); reflexivity.
+Qed.
+
+Lemma zcmp_le_trans a b c : (b ?= a) <> Gt -> (c ?= b) <> Gt -> (c ?= a) <> Gt.
+Proof.
+  intros H1 H2. destruct (Z.compare_spec b a), (Z.compare_spec c b), (Z.compare_spec c a);
+    try congruence; lia.
+Qed.
+
+Lemma info_le_trans a b c : info_cmp a b <> Gt -> info_cmp b c <> Gt -> info_cmp a c <> Gt.
+Proof.
+  rewrite !info_cmp_key. intros H1 H2.
+  destruct (lcmp (ikey a) (ikey b)) eqn:E1; [| |congruence].
+  - apply lcmp_eq in E1. rewrite E1. destruct (lcmp (ikey b) (ikey c)) eqn:E2; [| congruence | congruence].
+    apply (zcmp_le_trans _ (i_order b)); assumption.
+  - destruct (lcmp (ikey b) (ikey c)) eqn:E2; [| |congruence].
+    + apply lcmp_eq in E2. rewrite <- E2, E1. congruence.
+    + rewrite (lcmp_lt_trans _ _ _ E1 E2). congruence.
+Qed.
+
+Lemma info_le_best x c : info_cmp (c_info x) (c_info c) <> Gt ->
+  info3_cmp (c_info x) (c_info c) <> Gt /\
+  (info3_cmp (c_info x) (c_info c) = Eq -> i_order (c_info c) <= i_order (c_info x)).
+Proof.
+  rewrite info_cmp_key, info3_cmp_key. destruct (lcmp (ikey (c_info x)) (ikey (c_info c))).
+  - intros H. split; [congruence|]. intros _.
+    destruct (Z.compare_spec (i_order (c_info c)) (i_order (c_info x))); [lia|lia|congruence].
+  - intros _. split; congruence.
+  - congruence.
+Qed.
+
+(* ------------------------------------------------------------------ max_by_key *)
+Lemma max_fold_spec l : forall b,
+  exists c, fold_left max_step l (Some b) = Some c /\ In c (b :: l) /\
+            forall x, In x (b :: l) -> info_cmp (c_info x) (c_info c) <> Gt.
+Proof.
+  induction l as [|x l IH]; intros b.
+  - exists b. cbn. split; [reflexivity|]. split; [auto|]. intros y [Hy|[]]. subst.
+    rewrite info_cmp_key, lcmp_refl, Z.compare_refl. congruence.
+  - cbn [fold_left max_step].
+    destruct (info_cmp (c_info b) (c_info x)) eqn:E.
+    + destruct (IH x) as [c [Hc [Hin Hmax]]]. exists c. split; [exact Hc|]. split.
+      * destruct Hin as [H|H]; [subst; right; left; reflexivity | right; right; exact H].
+      * intros y [Hy|[Hy|Hy]].
+        -- subst y. eapply info_le_trans; [|apply Hmax; left; reflexivity]. congruence.
+        -- subst y. apply Hmax. left. reflexivity.
+        -- apply Hmax. right. exact Hy.
+    + destruct (IH x) as [c [Hc [Hin Hmax]]]. exists c. split; [exact Hc|]. split.
+      * destruct Hin as [H|H]; [subst; right; left; reflexivity | right; right; exact H].
+      * intros y [Hy|[Hy|Hy]].
+        -- subst y. eapply info_le_trans; [|apply Hmax; left; reflexivity]. congruence.
+        -- subst y. apply Hmax. left. reflexivity.
+        -- apply Hmax. right. exact Hy.
+    + destruct (IH b) as [c [Hc [Hin Hmax]]]. exists c. split; [exact Hc|]. split.
+      * destruct Hin as [H|H]; [subst; left; reflexivity | right; right; exact H].
+      * intros y [Hy|[Hy|Hy]].
+        -- subst y. apply Hmax. left. reflexivity.
+        -- subst y. eapply info_le_trans; [|apply Hmax; left; reflexivity].
+           rewrite info_cmp_antisym, E. cbn. congruence.
+        -- apply Hmax. right. exact Hy.
+Qed.
+
+Lemma max_by_info_none l : max_by_info l = None -> l = [].
+Proof.
+  destruct l as [|x l]; [reflexivity|]. unfold max_by_info. cbn [fold_left max_step].
+  destruct (max_fold_spec l x) as [c [Hc _]]. rewrite Hc. discriminate.
+Qed.
+
+Lemma max_by_info_best l c : max_by_info l = Some c -> best_in c l.
+Proof.
+  destruct l as [|x l]; [discriminate|]. unfold max_by_info. cbn [fold_left max_step].
+  destruct (max_fold_spec l x) as [c' [Hc [Hin Hmax]]]. rewrite Hc. intros H. inversion H; subst c'.
+  split; [exact Hin|]. intros y Hy. apply info_le_best. apply Hmax. exact Hy.
+Qed.
+
+(* ------------------------------------------------------------------ BTreeMap model *)
+Fixpoint ksorted (m : list (Z * cand)) : Prop :=
+  match m with
+  | [] => True
+  | kv :: r => (forall kv', In kv' r -> fst kv < fst kv') /\ ksorted r
+  end.
+
+Lemma map_insert_In k v m kv : In kv (map_insert k v m) -> kv = (k, v) \/ In kv m.
+Proof.
+  induction m as [|a m IH]; cbn [map_insert].
+  - intros [H|[]]. left. auto.
+  - destruct (k <? fst a).
+    + intros [H|H]; [left; auto | right; exact H].
+    + destruct (k =? fst a).
+      * intros [H|H]; [left; auto | right; right; exact H].
+      * intros [H|H]; [right; left; exact H|]. destruct (IH H); [left | right; right]; assumption.
+Qed.
+
+Lemma map_insert_sorted k v m : ksorted m -> ksorted (map_insert k v m).
+Proof.
+  induction m as [|a m IH]; cbn [map_insert ksorted].
+  - intros _. split; [intros ? []|exact I].
+  - intros [Ha Hm]. destruct (k <? fst a) eqn:E1.
+    + apply Z.ltb_lt in E1. cbn [ksorted]. split; [|split; assumption].
+      intros kv' [H|H]; [subst; exact E1|]. cbn [fst]. specialize (Ha kv' H). lia.
+    + destruct (k =? fst a) eqn:E2.
+      * apply Z.eqb_eq in E2. cbn [ksorted]. split; [|exact Hm]. cbn [fst]. rewrite E2. exact Ha.
+      * apply Z.ltb_ge in E1. apply Z.eqb_neq in E2. cbn [ksorted]. split; [|apply IH; exact Hm].
+        intros kv' H. apply map_insert_In in H. destruct H as [H|H]; [subst; cbn; lia|]. apply Ha. exact H.
+Qed.
+
+Lemma ksorted_filter P m : ksorted m -> ksorted (filter P m).
+Proof.
+  induction m as [|a m IH]; cbn [filter ksorted]; [auto|]. intros [Ha Hm].
+  destruct (P a); cbn [ksorted]; [|apply IH; exact Hm].
+  split; [|apply IH; exact Hm]. intros kv' H. apply filter_In in H. apply Ha. tauto.
+Qed.
+
+Lemma ksorted_NoDup m : ksorted m -> NoDup (map fst m).
+Proof.
+  induction m as [|a m IH]; cbn [map ksorted]; [constructor|]. intros [Ha Hm].
+  constructor; [|apply IH; exact Hm]. intros H. apply in_map_iff in H. destruct H as [kv [He Hin]].
+  specialize (Ha kv Hin). lia.
+Qed.
+
+(* ------------------------------------------------------------------ group_patches *)
+
+Definition nmap_ok (P : cand -> bool) (cands : list cand) (m : list (Z * cand)) : Prop :=
+  ksorted m /\
+  forall kv, In kv m -> fst kv = c_uri (snd kv) /\ In (snd kv) cands /\ P (snd kv) = true.
+
+Lemma nmap_ok_weaken P l l' m : incl l l' -> nmap_ok P l m -> nmap_ok P l' m.
+Proof. intros Hi [Hs H]. split; [exact Hs|]. intros kv Hkv. destruct (H kv Hkv) as [A [B C]]. auto. Qed.
+
+Lemma nmap_ok_insert P l m c : nmap_ok P l m -> In c l -> P c = true ->
+  nmap_ok P l (map_insert (c_uri c) c m).
+Proof.
+  intros [Hs H] Hc HP. split; [apply map_insert_sorted; exact Hs|].
+  intros kv Hkv. apply map_insert_In in Hkv. destruct Hkv as [Hkv|Hkv]; [subst; cbn; auto | apply H; exact Hkv].
+Qed.
+
+Lemma nmap_ok_remove P l m k : nmap_ok P l m ->
+  nmap_ok P l (map_remove k m) /\ ~ In k (map fst (map_remove k m)).
+Proof.
+  intros [Hs H]. split; [split|].
+  - apply ksorted_filter. exact Hs.
+  - intros kv Hkv. apply filter_In in Hkv. apply H. tauto.
+  - intros Hin. apply in_map_iff in Hin. destruct Hin as [kv [He Hkv]]. apply filter_In in Hkv.
+    destruct Hkv as [_ Hn]. rewrite He, Z.eqb_refl in Hn. discriminate.
+Qed.
+
+Lemma filter_snoc {A} (P : A -> bool) l c : filter P (l ++ [c]) = filter P l ++ (if P c then [c] else []).
+Proof. rewrite filter_app. cbn. destruct (P c); reflexivity. Qed.
+
+Definition grouping_ok (cands : list cand) (ift iftx : option Z) (g : grouping) : Prop :=
+  g_full g = filter is_full cands /\
+  g_pift g = filter (pred_pift ift) cands /\
+  g_piftx g = filter (pred_piftx ift iftx) cands /\
+  nmap_ok (pred_nift ift) cands (g_nift g) /\
+  nmap_ok (pred_niftx ift iftx) cands (g_niftx g).
+
+Lemma group_patches_snoc l c ift iftx :
+  group_patches (l ++ [c]) ift iftx = group_step ift iftx (group_patches l ift iftx) c.
+Proof. unfold group_patches. rewrite fold_left_app. reflexivity. Qed.
+
+Lemma group_patches_ok cands ift iftx : forall g,
+  group_patches cands ift iftx = Some g -> grouping_ok cands ift iftx g.
+Proof.
+  induction cands as [|c l IH] using rev_ind; intros g H.
+  - cbn in H. inversion H; subst. unfold grouping_ok, nmap_ok. cbn.
+    repeat split; auto; try (intros ? []); try contradiction.
+  - rewrite group_patches_snoc in H.
+    destruct (group_patches l ift iftx) as [g0|]; [|discriminate].
+    destruct (IH g0 eq_refl) as [H1 [H2 [H3 [H4 H5]]]].
+    assert (Hincl : incl l (l ++ [c])) by (apply incl_appl, incl_refl).
+    assert (Hc : In c (l ++ [c])) by (apply in_or_app; right; left; reflexivity).
+    apply (nmap_ok_weaken _ _ _ _ Hincl) in H4. apply (nmap_ok_weaken _ _ _ _ Hincl) in H5.
+    unfold grouping_ok. rewrite !filter_snoc.
+    unfold pred_pift, pred_piftx, pred_nift, pred_niftx, is_full, is_part, is_glyph in *.
+    cbn [group_step] in H. destruct (c_fmt c) eqn:Hf.
+    + destruct (c_tmpl_ok c); [|discriminate]. inversion H; subst g. cbn [g_full g_pift g_piftx g_nift g_niftx andb].
+      rewrite H1, H2, H3, !app_nil_r. auto.
+    + destruct (opt_eqb (c_cid c) ift) eqn:E1.
+      * destruct (c_tmpl_ok c); [|discriminate]. inversion H; subst g. cbn [g_full g_pift g_piftx g_nift g_niftx andb negb].
+        rewrite H1, H2, H3, !app_nil_r. auto.
+      * destruct (opt_eqb (c_cid c) iftx) eqn:E2.
+        -- destruct (c_tmpl_ok c); [|discriminate]. inversion H; subst g. cbn [g_full g_pift g_piftx g_nift g_niftx andb negb].
+           rewrite H1, H2, H3, !app_nil_r. auto.
+        -- inversion H; subst g. cbn [andb negb]. rewrite H1, H2, H3, !app_nil_r. auto.
+    + destruct (opt_eqb (c_cid c) ift) eqn:E1.
+      * destruct (c_tmpl_ok c); [|discriminate]. inversion H; subst g. cbn [g_full g_pift g_piftx g_nift g_niftx andb negb].
+        rewrite H1, H2, H3, !app_nil_r. split; [auto|]. split; [auto|]. split; [auto|]. split; [|assumption].
+        apply nmap_ok_insert; [assumption|assumption|cbn beta; rewrite Hf, E1; reflexivity].
+      * destruct (opt_eqb (c_cid c) iftx) eqn:E2.
+        -- destruct (c_tmpl_ok c); [|discriminate]. inversion H; subst g. cbn [g_full g_pift g_piftx g_nift g_niftx andb negb].
+           rewrite H1, H2, H3, !app_nil_r. split; [auto|]. split; [auto|]. split; [auto|]. split; [assumption|].
+           apply nmap_ok_insert; [assumption|assumption|cbn beta; rewrite Hf, E1, E2; reflexivity].
+        -- inversion H; subst g. cbn [andb negb]. rewrite H1, H2, H3, !app_nil_r. auto.
+Qed.
+
+(* ------------------------------------------------------------------ select_next_patches_from_candidates *)
+
+Definition group_shape (cands : list cand) (ift iftx : option Z) (g : group) : Prop :=
+  match g with
+  | GFull c => best_in c (filter is_full cands)
+  | GMixed a b =>
+      filter is_full cands = [] /\
+      scope_ok (filter (pred_pift ift) cands) a /\
+      scope_ok (filter (uri_differs (sel_of a)) (filter (pred_piftx ift iftx) cands)) b /\
+      nmap_ok (pred_nift ift) cands (scoped_noinv a) /\
+      nmap_ok (pred_niftx ift iftx) cands (scoped_noinv b) /\
+      (forall c, In c (scoped_partial a ++ scoped_partial b) ->
+                 ~ In (c_uri c) (map fst (scoped_noinv a ++ scoped_noinv b))) /\
+      (forall k, In k (map fst (scoped_noinv a)) -> ~ In k (map fst (scoped_noinv b)))
+  end.
+
+Lemma nmap_ok_nil P cands : nmap_ok P cands [].
+Proof. split; [exact I|]. intros ? []. Qed.
+
+Lemma fold_remove_spec P cands (l : list (Z * cand)) : forall m, nmap_ok P cands m ->
+  let r := fold_left (fun m kv => map_remove (fst kv) m) l m in
+  nmap_ok P cands r /\ incl r m /\ forall k, In k (map fst l) -> ~ In k (map fst r).
+Proof.
+  induction l as [|kv l IH]; intros m Hm; cbn [fold_left map].
+  - split; [exact Hm|]. split; [apply incl_refl|]. intros k [].
+  - destruct (nmap_ok_remove P cands m (fst kv) Hm) as [Hm1 Hk0].
+    destruct (IH _ Hm1) as [Hr [Hincl Hks]]. cbv zeta. split; [exact Hr|]. split.
+    + intros x Hx. apply Hincl in Hx. apply filter_In in Hx. tauto.
+    + intros k [Hk|Hk].
+      * subst k. intros Hin. apply Hk0. apply in_map_iff in Hin. destruct Hin as [x [Hx Hin]].
+        apply in_map_iff. exists x. split; [exact Hx|]. apply Hincl. exact Hin.
+      * apply Hks. exact Hk.
+Qed.
+
+Lemma select_shape cands ift iftx g :
+  select_from_candidates cands ift iftx = Some g -> group_shape cands ift iftx g.
+Proof.
+  unfold select_from_candidates. destruct (group_patches cands ift iftx) as [gr|] eqn:Hg; [|discriminate].
+  destruct (group_patches_ok _ _ _ _ Hg) as [H1 [H2 [H3 [H4 H5]]]]. rewrite H1, H2, H3.
+  destruct (max_by_info (filter is_full cands)) as [c|] eqn:Hfull.
+  { intros H. inversion H; subst g. cbn. apply max_by_info_best. exact Hfull. }
+  apply max_by_info_none in Hfull.
+  destruct (max_by_info (filter (pred_pift ift) cands)) as [a|] eqn:Ha.
+  - apply max_by_info_best in Ha.
+    destruct (max_by_info (filter (uri_differs (Some a)) (filter (pred_piftx ift iftx) cands))) as [b|] eqn:Hb.
+    + apply max_by_info_best in Hb. intros H. inversion H; subst g. cbn [group_shape sel_of scope_ok scoped_noinv scoped_partial].
+      split; [exact Hfull|]. split; [exact Ha|]. split; [exact Hb|].
+      split; [apply nmap_ok_nil|]. split; [apply nmap_ok_nil|]. split; [intros ? _ []|intros ? []].
+    + apply max_by_info_none in Hb. intros H. inversion H; subst g. cbn [group_shape sel_of scope_ok scoped_noinv scoped_partial].
+      destruct (nmap_ok_remove _ _ _ (c_uri a) H5) as [H5' Hk].
+      split; [exact Hfull|]. split; [exact Ha|]. split; [exact Hb|].
+      split; [apply nmap_ok_nil|]. split; [exact H5'|]. split; [|intros ? []].
+      intros c [Hc|[]]. subst c. cbn [app]. exact Hk.
+  - apply max_by_info_none in Ha.
+    destruct (max_by_info (filter (uri_differs None) (filter (pred_piftx ift iftx) cands))) as [b|] eqn:Hb.
+    + apply max_by_info_best in Hb. intros H. inversion H; subst g. cbn [group_shape sel_of scope_ok scoped_noinv scoped_partial].
+      destruct (nmap_ok_remove _ _ _ (c_uri b) H4) as [H4' Hk].
+      split; [exact Hfull|]. split; [exact Ha|]. split; [exact Hb|].
+      split; [exact H4'|]. split; [apply nmap_ok_nil|]. split; [|intros ? _ []].
+      intros c [Hc|[]]. subst c. rewrite app_nil_r. exact Hk.
+    + apply max_by_info_none in Hb. intros H. inversion H; subst g. cbn [group_shape sel_of scope_ok scoped_noinv scoped_partial].
+      destruct (fold_remove_spec _ _ (g_nift gr) _ H5) as [Hr [_ Hks]].
+      split; [exact Hfull|]. split; [exact Ha|]. split; [exact Hb|].
+      split; [exact H4|]. split; [exact Hr|]. split; [intros ? []|]. exact Hks.
+Qed.
+
+(* --- consequences of the shape --- *)
+Lemma best_in_In c l : best_in c l -> In c l.
+Proof. intros [H _]. exact H. Qed.
+
+Lemma members_offered cands ift iftx g : select_from_candidates cands ift iftx = Some g ->
+  incl (members g) cands.
+Proof.
+  intros H. apply select_shape in H. destruct g as [c|a b]; cbn in H.
+  - intros x [Hx|[]]. subst. apply best_in_In in H. apply filter_In in H. tauto.
+  - destruct H as [_ [Ha [Hb [Hna [Hnb _]]]]]. unfold members. cbn [inv_members noinv_members].
+    intros x Hx. apply in_app_or in Hx. destruct Hx as [Hx|Hx].
+    + apply in_app_or in Hx. destruct Hx as [Hx|Hx].
+      * destruct a as [ca|]; [|destruct Hx]. destruct Hx as [Hx|[]]. subst. cbn in Ha.
+        apply best_in_In in Ha. apply filter_In in Ha. tauto.
+      * destruct b as [cb|]; [|destruct Hx]. destruct Hx as [Hx|[]]. subst. cbn in Hb.
+        apply best_in_In in Hb. apply filter_In in Hb. destruct Hb as [Hb _]. apply filter_In in Hb. tauto.
+    + rewrite map_app in Hx. apply in_app_or in Hx. destruct Hx as [Hx|Hx];
+        apply in_map_iff in Hx; destruct Hx as [kv [He Hin]]; subst x.
+      * apply Hna in Hin. tauto.
+      * apply Hnb in Hin. tauto.
+Qed.
+
+Lemma group_uris_nodup cands ift iftx g : select_from_candidates cands ift iftx = Some g ->
+  NoDup (uris g).
+Proof.
+  intros H. apply select_shape in H. destruct g as [c|a b]; cbn in H.
+  - cbn. constructor; [intros []|constructor].
+  - destruct H as [_ [Ha [Hb [Hna [Hnb [Hdis Hdis2]]]]]]. unfold uris. cbn [inv_members noinv_members].
+    assert (Hkeys : NoDup (map fst (scoped_noinv a ++ scoped_noinv b))).
+    { rewrite map_app. destruct Hna as [Hsa _], Hnb as [Hsb _].
+      apply ksorted_NoDup in Hsa, Hsb. revert Hsa Hsb Hdis2. generalize (map fst (scoped_noinv a)) (map fst (scoped_noinv b)).
+      intros l1 l2 N1 N2 Hd. induction l1 as [|x l1 IH]; [exact N2|]. cbn. inversion N1; subst.
+      constructor.
+      - intros Hin. apply in_app_or in Hin. destruct Hin as [Hin|Hin]; [contradiction|].
+        apply (Hd x); [left; reflexivity | exact Hin].
+      - apply IH; [assumption|]. intros k Hk. apply Hd. right. exact Hk. }
+    assert (Hpart : NoDup (map c_uri (scoped_partial a ++ scoped_partial b))).
+    { destruct a as [ca|ma], b as [cb|mb]; cbn [scoped_partial app map].
+      - constructor; [|constructor; [intros []|constructor]]. intros [Hx|[]].
+        cbn in Hb. apply best_in_In in Hb. apply filter_In in Hb. destruct Hb as [_ Hb].
+        cbn in Hb. apply negb_true_iff, Z.eqb_neq in Hb. congruence.
+      - constructor; [intros []|constructor].
+      - constructor; [intros []|constructor].
+      - constructor. }
+    revert Hpart Hkeys Hdis. generalize (scoped_partial a ++ scoped_partial b) (map fst (scoped_noinv a ++ scoped_noinv b)).
+    intros l1 l2 N1 N2 Hd. induction l1 as [|x l1 IH]; [exact N2|]. cbn in *. inversion N1; subst.
+    constructor.
+    + intros Hin. apply in_app_or in Hin. destruct Hin as [Hin|Hin]; [contradiction|].
+      apply (Hd x); [left; reflexivity | exact Hin].
+    + apply IH; [assumption|]. intros c Hc. apply Hd. right. exact Hc.
+Qed.
+
+Lemma noinv_members_glyph cands ift iftx a b : group_shape cands ift iftx (GMixed a b) ->
+  forall x, In x (map snd (scoped_noinv a ++ scoped_noinv b)) -> c_fmt x = GlyphKeyed.
+Proof.
+  intros [_ [_ [_ [Hna [Hnb _]]]]] x Hx. apply in_map_iff in Hx. destruct Hx as [kv [He Hin]]. subst x.
+  assert (Hg : is_glyph (snd kv) = true).
+  { apply in_app_or in Hin. destruct Hin as [Hin|Hin].
+    - apply Hna in Hin. destruct Hin as [_ [_ HP]]. unfold pred_nift in HP. apply andb_true_iff in HP. tauto.
+    - apply Hnb in Hin. destruct Hin as [_ [_ HP]]. unfold pred_niftx in HP. rewrite !andb_true_iff in HP. tauto. }
+  unfold is_glyph in Hg. destruct (c_fmt (snd kv)); congruence.
+Qed.
+
+Lemma full_alone cands ift iftx g : select_from_candidates cands ift iftx = Some g ->
+  forall c, In c (members g) -> c_fmt c = FullInv -> members g = [c].
+Proof.
+  intros H c Hc Hf. apply select_shape in H. destruct g as [c0|a b].
+  - destruct Hc as [Hc|[]]. subst. reflexivity.
+  - exfalso. pose proof (noinv_members_glyph _ _ _ _ _ H) as Hgl.
+    cbn in H. destruct H as [_ [Ha [Hb _]]]. unfold members in Hc. cbn [inv_members noinv_members] in Hc.
+    apply in_app_or in Hc. destruct Hc as [Hc|Hc].
+    + apply in_app_or in Hc. destruct Hc as [Hc|Hc].
+      * destruct a as [ca|]; [|destruct Hc]. destruct Hc as [Hc|[]]. subst. cbn in Ha.
+        apply best_in_In in Ha. apply filter_In in Ha. destruct Ha as [_ Ha].
+        unfold pred_pift, is_part in Ha. rewrite Hf in Ha. discriminate.
+      * destruct b as [cb|]; [|destruct Hc]. destruct Hc as [Hc|[]]. subst. cbn in Hb.
+        apply best_in_In in Hb. apply filter_In in Hb. destruct Hb as [Hb _]. apply filter_In in Hb.
+        destruct Hb as [_ Hb]. unfold pred_piftx, is_part in Hb. rewrite Hf in Hb. discriminate.
+    + apply Hgl in Hc. congruence.
+Qed.
+
+Lemma full_priority cands ift iftx g : select_from_candidates cands ift iftx = Some g ->
+  (exists x, In x cands /\ c_fmt x = FullInv) -> exists c, g = GFull c /\ c_fmt c = FullInv.
+Proof.
+  intros H [x [Hx Hf]]. apply select_shape in H. destruct g as [c|a b].
+  - exists c. split; [reflexivity|]. cbn in H. apply best_in_In in H. apply filter_In in H.
+    destruct H as [_ H]. unfold is_full in H. destruct (c_fmt c); congruence.
+  - exfalso. destruct H as [H _]. assert (Hin : In x (filter is_full cands)).
+    { apply filter_In. split; [exact Hx|]. unfold is_full. rewrite Hf. reflexivity. }
+    rewrite H in Hin. destruct Hin.
+Qed.
+
+Lemma one_invalidating_per_table cands ift iftx g : select_from_candidates cands ift iftx = Some g ->
+  forall c1 c2, In c1 (members g) -> In c2 (members g) ->
+    is_invalidating (c_fmt c1) = true -> is_invalidating (c_fmt c2) = true ->
+    c_cid c1 = c_cid c2 -> c1 = c2.
+Proof.
+  intros H c1 c2 H1 H2 I1 I2 Hcid. apply select_shape in H. destruct g as [c|a b].
+  - destruct H1 as [H1|[]], H2 as [H2|[]]. congruence.
+  - pose proof (noinv_members_glyph _ _ _ _ _ H) as Hgl.
+    assert (Hinv : forall c, In c (members (GMixed a b)) -> is_invalidating (c_fmt c) = true ->
+                     In c (scoped_partial a ++ scoped_partial b)).
+    { intros c Hc Hi. unfold members in Hc. cbn [inv_members noinv_members] in Hc.
+      apply in_app_or in Hc. destruct Hc as [Hc|Hc]; [exact Hc|]. apply Hgl in Hc. rewrite Hc in Hi. discriminate. }
+    apply Hinv in H1; [|exact I1]. apply Hinv in H2; [|exact I2].
+    cbn in H. destruct H as [_ [Ha [Hb _]]].
+    assert (Hcida : forall ca, a = SPartial ca -> opt_eqb (c_cid ca) ift = true).
+    { intros ca ->. cbn in Ha. apply best_in_In in Ha. apply filter_In in Ha. destruct Ha as [_ Ha].
+      unfold pred_pift in Ha. apply andb_true_iff in Ha. tauto. }
+    assert (Hcidb : forall cb, b = SPartial cb -> opt_eqb (c_cid cb) ift = false).
+    { intros cb ->. cbn in Hb. apply best_in_In in Hb. apply filter_In in Hb. destruct Hb as [Hb _].
+      apply filter_In in Hb. destruct Hb as [_ Hb]. unfold pred_piftx in Hb. rewrite !andb_true_iff, negb_true_iff in Hb. tauto. }
+    destruct a as [ca|ma], b as [cb|mb]; cbn in H1, H2;
+      repeat match goal with
+             | H : _ \/ _ |- _ => destruct H
+             | H : False |- _ => destruct H
+             end; subst; try reflexivity;
+      specialize (Hcida _ eq_refl); specialize (Hcidb _ eq_refl); congruence.
+Qed.
+
+(* ------------------------------------------------------------------ select_next_patches *)
+Lemma select_next_inv f d g : select_next f d = Some (Some g) ->
+  exists cands, offered f d = Some cands /\ cands <> [] /\
+    optz_eqb (cid_of 0 f) (cid_of 1 f) = false /\
+    select_from_candidates cands (cid_of 0 f) (cid_of 1 f) = Some g.
+Proof.
+  unfold select_next. destruct (offered f d) as [cands|] eqn:Ho; [|discriminate].
+  destruct cands as [|c cands]; [discriminate|].
+  destruct (optz_eqb (cid_of 0 f) (cid_of 1 f)) eqn:Hc; [discriminate|].
+  destruct (select_from_candidates (c :: cands) (cid_of 0 f) (cid_of 1 f)) as [g'|] eqn:Hs; [|discriminate].
+  cbn. intros H. inversion H; subst. exists (c :: cands).
+  split; [reflexivity|]. split; [discriminate|]. split; [reflexivity | exact Hs].
+Qed.
+
+Lemma select_next_nodup f d g : select_next f d = Some (Some g) -> NoDup (uris g).
+Proof. intros H. destruct (select_next_inv _ _ _ H) as [cs [_ [_ [_ Hs]]]]. eapply group_uris_nodup; eauto. Qed.
+
+Lemma select_next_members_offered f d g : select_next f d = Some (Some g) ->
+  exists cands, offered f d = Some cands /\ incl (members g) cands.
+Proof.
+  intros H. destruct (select_next_inv _ _ _ H) as [cs [Ho [_ [_ Hs]]]]. exists cs. split; [exact Ho|].
+  eapply members_offered; eauto.
+Qed.
+
+Lemma select_next_one_invalidating f d g : select_next f d = Some (Some g) ->
+  forall c1 c2, In c1 (members g) -> In c2 (members g) ->
+    is_invalidating (c_fmt c1) = true -> is_invalidating (c_fmt c2) = true ->
+    c_cid c1 = c_cid c2 -> c1 = c2.
+Proof. intros H. destruct (select_next_inv _ _ _ H) as [cs [_ [_ [_ Hs]]]]. eapply one_invalidating_per_table; eauto. Qed.
+
+Lemma select_next_full_alone f d g : select_next f d = Some (Some g) ->
+  forall c, In c (members g) -> c_fmt c = FullInv -> members g = [c].
+Proof. intros H. destruct (select_next_inv _ _ _ H) as [cs [_ [_ [_ Hs]]]]. eapply full_alone; eauto. Qed.
+
+Lemma select_next_full_priority f d g cands : select_next f d = Some (Some g) -> offered f d = Some cands ->
+  (exists x, In x cands /\ c_fmt x = FullInv) -> exists c, g = GFull c /\ c_fmt c = FullInv.
+Proof.
+  intros H Ho. destruct (select_next_inv _ _ _ H) as [cs [Ho' [_ [_ Hs]]]].
+  rewrite Ho in Ho'. inversion Ho'; subst cs. eapply full_priority; eauto.
+Qed.
+
+Lemma select_next_choice f d g cands : select_next f d = Some (Some g) -> offered f d = Some cands ->
+  group_shape cands (cid_of 0 f) (cid_of 1 f) g.
+Proof.
+  intros H Ho. destruct (select_next_inv _ _ _ H) as [cs [Ho' [_ [_ Hs]]]].
+  rewrite Ho in Ho'. inversion Ho'; subst cs. apply select_shape. exact Hs.
+Qed.
+
+(* the uris are exactly the uris of the members *)
+Lemma uris_members cands ift iftx g : select_from_candidates cands ift iftx = Some g ->
+  uris g = map c_uri (members g).
+Proof.
+  intros H. apply select_shape in H. unfold uris, members. rewrite map_app. f_equal.
+  destruct g as [c|a b]; [reflexivity|]. cbn [noinv_members]. cbn in H.
+  destruct H as [_ [_ [_ [[_ Hna] [[_ Hnb] _]]]]].
+  rewrite map_map. apply map_ext_in. intros kv Hin. apply in_app_or in Hin.
+  destruct Hin as [Hin|Hin]; [apply Hna in Hin | apply Hnb in Hin]; tauto.
+Qed.
+
+(* ------------------------------------------------------------------ apply bookkeeping *)
+Definition is_pending (kv : Z * status) : bool := match snd kv with Pending => true | Applied => false end.
+
+Lemma pending_count_apply_le u pd : (pending_count (pd_apply u pd) <= pending_count pd)%nat.
+Proof.
+  unfold pending_count, pd_apply. induction pd as [|kv pd IH]; cbn; [lia|].
+  destruct (fst kv =? u); cbn; destruct (snd kv); cbn; lia.
+Qed.
+
+Lemma pending_count_apply_lt u pd : pd_get u pd = Some Pending ->
+  (pending_count (pd_apply u pd) < pending_count pd)%nat.
+Proof.
+  unfold pending_count, pd_apply. induction pd as [|kv pd IH]; cbn; [discriminate|].
+  destruct (fst kv =? u) eqn:E.
+  - intros H. inversion H as [Hs]. cbn. rewrite Hs. cbn.
+    pose proof (pending_count_apply_le u pd) as Hle. unfold pending_count, pd_apply in Hle. lia.
+  - intros H. specialize (IH H). destruct (snd kv); cbn; lia.
+Qed.
+
+Lemma pd_get_apply u v pd : pd_get v (pd_apply u pd) =
+  if v =? u then option_map (fun _ => Applied) (pd_get v pd) else pd_get v pd.
+Proof.
+  induction pd as [|kv pd IH]; cbn; [destruct (v =? u); reflexivity|].
+  destruct (fst kv =? u) eqn:E1; cbn [fst snd].
+  - destruct (fst kv =? v) eqn:E2.
+    + apply Z.eqb_eq in E1, E2. subst. rewrite Z.eqb_refl. reflexivity.
+    + exact IH.
+  - destruct (fst kv =? v) eqn:E2.
+    + apply Z.eqb_eq in E2. subst. rewrite E1. reflexivity.
+    + exact IH.
+Qed.
+
+Lemma pd_get_apply_applied u v pd : pd_get v pd = Some Applied -> pd_get v (pd_apply u pd) = Some Applied.
+Proof. intros H. rewrite pd_get_apply, H. destruct (v =? u); reflexivity. Qed.
+
+Lemma fold_apply_le us : forall pd,
+  (pending_count (fold_left (fun p u => pd_apply u p) us pd) <= pending_count pd)%nat.
+Proof.
+  induction us as [|u us IH]; intros pd; cbn [fold_left]; [lia|].
+  specialize (IH (pd_apply u pd)). pose proof (pending_count_apply_le u pd). lia.
+Qed.
+
+Lemma fold_apply_lt us u0 : forall pd, In u0 us -> pd_get u0 pd = Some Pending ->
+  (pending_count (fold_left (fun p u => pd_apply u p) us pd) < pending_count pd)%nat.
+Proof.
+  induction us as [|u us IH]; intros pd Hin Hp; [destruct Hin|]. cbn [fold_left].
+  destruct (Z.eq_dec u u0) as [->|Hne].
+  - pose proof (pending_count_apply_lt u0 pd Hp). pose proof (fold_apply_le us (pd_apply u0 pd)). lia.
+  - destruct Hin as [Hin|Hin]; [congruence|].
+    assert (Hp' : pd_get u0 (pd_apply u pd) = Some Pending).
+    { rewrite pd_get_apply. destruct (u0 =? u) eqn:E; [apply Z.eqb_eq in E; congruence | exact Hp]. }
+    specialize (IH _ Hin Hp'). pose proof (pending_count_apply_le u pd). lia.
+Qed.
+
+Lemma fold_apply_applied us v : forall pd, pd_get v pd = Some Applied ->
+  pd_get v (fold_left (fun p u => pd_apply u p) us pd) = Some Applied.
+Proof.
+  induction us as [|u us IH]; intros pd H; cbn [fold_left]; [exact H|]. apply IH. apply pd_get_apply_applied. exact H.
+Qed.
+
+Lemma fold_apply_in us v : forall pd, In v us -> pd_get v pd <> None ->
+  pd_get v (fold_left (fun p u => pd_apply u p) us pd) = Some Applied.
+Proof.
+  induction us as [|u us IH]; intros pd Hin Hn; [destruct Hin|]. cbn [fold_left].
+  destruct (Z.eq_dec u v) as [->|Hne].
+  - apply fold_apply_applied. rewrite pd_get_apply, Z.eqb_refl. destruct (pd_get v pd); [reflexivity|congruence].
+  - destruct Hin as [Hin|Hin]; [congruence|]. apply IH; [exact Hin|].
+    rewrite pd_get_apply. destruct (v =? u) eqn:E; [apply Z.eqb_eq in E; congruence | exact Hn].
+Qed.
+
+Lemma accumulate_first us pd u l : accumulate us pd = Some (u :: l) ->
+  In u us /\ pd_get u pd = Some Pending.
+Proof.
+  induction us as [|a us IH]; cbn; [discriminate|].
+  destruct (pd_get a pd) as [[|]|] eqn:E; [| |discriminate].
+  - destruct (accumulate us pd); cbn; [|discriminate]. intros H. inversion H; subst. auto.
+  - intros H. destruct (IH H). auto.
+Qed.
+
+Definition round_progress_stmt (g : group) (pd pd' : pdata) : Prop :=
+  (pending_count pd' < pending_count pd)%nat /\
+  (exists u, In u (uris g) /\ pd_get u pd = Some Pending /\ pd_get u pd' = Some Applied) /\
+  (forall v, pd_get v pd = Some Applied -> pd_get v pd' = Some Applied).
+
+Lemma apply_noinv_progress g pd ok pd' : apply_noinv g pd ok = Some pd' -> round_progress_stmt g pd pd'.
+Proof.
+  unfold apply_noinv. destruct (accumulate (map fst (noinv_members g)) pd) as [[|u l]|] eqn:Ha; try discriminate.
+  destruct ok; [|discriminate]. intros H. inversion H; subst pd'. clear H.
+  destruct (accumulate_first _ _ _ _ Ha) as [Hin Hp]. split; [|split].
+  - eapply fold_apply_lt; eauto.
+  - exists u. split; [unfold uris; apply in_or_app; right; exact Hin|]. split; [exact Hp|].
+    apply fold_apply_in; [exact Hin | congruence].
+  - intros v Hv. apply fold_apply_applied. exact Hv.
+Qed.
+
+Lemma apply_next_progress g pd ok pd' : apply_next g pd ok = Some pd' -> round_progress_stmt g pd pd'.
+Proof.
+  unfold apply_next. destruct (inv_members g) as [|c r] eqn:Hinv; [apply apply_noinv_progress|].
+  destruct (pd_get (c_uri c) pd) as [[|]|] eqn:Hg; [| apply apply_noinv_progress | discriminate].
+  destruct ok; [|discriminate]. intros H. inversion H; subst pd'. clear H. split; [|split].
+  - apply pending_count_apply_lt. exact Hg.
+  - exists (c_uri c). split; [unfold uris; rewrite Hinv; left; reflexivity|]. split; [exact Hg|].
+    rewrite pd_get_apply, Z.eqb_refl, Hg. reflexivity.
+  - intros v Hv. apply pd_get_apply_applied. exact Hv.
+Qed.
+
+Lemma run_rounds_measure rounds : forall pd pd', run_rounds rounds pd = Some pd' ->
+  (length rounds + pending_count pd' <= pending_count pd)%nat.
+Proof.
+  induction rounds as [|[g ok] r IH]; intros pd pd' H; cbn in H.
+  - inversion H; subst. cbn. lia.
+  - destruct (apply_next g pd ok) as [pd1|] eqn:Ha; [|discriminate].
+    apply apply_next_progress in Ha. destruct Ha as [Hlt _]. specialize (IH _ _ H). cbn [length]. lia.
+Qed.
+
+Lemma extension_terminates_lemma rounds pd pd' : run_rounds rounds pd = Some pd' ->
+  (length rounds <= pending_count pd)%nat.
+Proof. intros H. apply run_rounds_measure in H. lia. Qed.
+
+Lemma select_next_choice_maximal f d g cands : select_next f d = Some (Some g) -> offered f d = Some cands ->
+  match g with
+  | GFull c => best_in c (filter is_full cands)
+  | GMixed a b =>
+      filter is_full cands = [] /\
+      scope_ok (filter (pred_pift (cid_of 0 f)) cands) a /\
+      scope_ok (filter (uri_differs (sel_of a)) (filter (pred_piftx (cid_of 0 f) (cid_of 1 f)) cands)) b
+  end.
+Proof.
+  intros H Ho. pose proof (select_next_choice _ _ _ _ H Ho) as Hs. destruct g as [c|a b]; [exact Hs|].
+  cbn in Hs. tauto.
+Qed.
+
+Lemma entries_decodable_ranges m : forall k, entries_decodable k m = true ->
+  forall i e, nth_error m i = Some e ->
+    Forall (fun ts => Forall (fun r => fst r <= snd r) (snd ts)) (ed_ds (e_def e)).
+Proof.
+  induction m as [|e0 m IH]; intros k H i e He.
+  - destruct i; discriminate.
+  - cbn in H. apply andb_true_iff in H. destruct H as [H Hr]. apply andb_true_iff in H. destruct H as [_ Hv].
+    destruct i as [|i].
+    + cbn in He. inversion He; subst. apply Forall_forall. intros ts Hts.
+      rewrite forallb_forall in Hv. specialize (Hv ts Hts). apply Forall_forall. intros r Hin.
+      rewrite forallb_forall in Hv. specialize (Hv r Hin). unfold range_valid in Hv. apply Z.leb_le. exact Hv.
+    + cbn in He. apply (IH (S k) Hr i e He).
+Qed.
+
+Lemma entries_decodable_wf m : entries_decodable 0 m = true ->
+  (forall i e, nth_error m i = Some e -> Forall (fun ts => snd ts <> []) (ed_ds (e_def e))) ->
+  mapping_wf m.
+Proof.
+  intros Hd Hne i e He. split.
+  - apply (entries_decodable_children m 0 Hd i e He).
+  - pose proof (entries_decodable_ranges m 0 Hd i e He) as Hr. specialize (Hne i e He).
+    rewrite Forall_forall in *. intros ts Hts. split; [apply Hne | apply Hr]; exact Hts.
+Qed.
